@@ -116,6 +116,9 @@ def _events():
     ev("search(en+es, accent decides the language)", lambda a: search_dates("Año: March 5, 2021", languages=a["l"], add_detected_language=True), {"l": ["en", "es"]}, core=True)
     ev("parse(de, accented)", lambda a: P("5. März 2021", languages=a["l"]), {"l": ["de"]})
     ev("search(en+de, accent decides the language)", lambda a: search_dates("März: 5 March 2021", languages=a["l"], add_detected_language=True), {"l": ["en", "de"]})
+    # strings that translate to nothing (only skipped words) in locales whose own order is not the default one
+    ev("parse(only skip words, fr)", lambda a: P("le", languages=a["l"]), {"l": ["fr"]})
+    ev("parse(only skip words, ru, autodetect)", lambda a: P("в"))
     # lenient clock spellings (24-hour value with a meridian) before ordinary 12-hour times
     ev("parse(16:50 pm)", lambda a: P("December 23, 2010, 16:50 pm", languages=["en"]))
     ev("parse(3:30 PM)", lambda a: P("March 5, 2024 3:30 PM", languages=["en"]))
